@@ -1332,8 +1332,19 @@ pub fn run<'tcx>(tcx: TyCtxt<'tcx>) {
         }
         let g = tcx.generics_of(did);
         if g.count() == 1 && g.own_params.len() == 1 && matches!(g.own_params[0].kind, ty::GenericParamDefKind::Type { .. }) {
-            let name = tcx.item_name(did);
-            if name.as_str() != "bucket" {
+            // the single type parameter must be bounded by Kmer (so that every k-mer type is a legal instantiation)
+            let Some(tk) = t_kmer else { continue };
+            let param_ty = Ty::new_param(tcx, g.own_params[0].index, g.own_params[0].name);
+            let mut bounded = false;
+            for (clause, _) in tcx.predicates_of(did).predicates.iter() {
+                if let Some(tp) = clause.as_trait_clause() {
+                    let tp = tp.skip_binder();
+                    if tp.def_id() == tk && tp.self_ty() == param_ty {
+                        bounded = true;
+                    }
+                }
+            }
+            if !bounded {
                 continue;
             }
             for (kt, _) in ktypes.iter() {
